@@ -16,6 +16,8 @@ pub enum N {
     While(Vec<N>, Vec<N>),
     Repeat(Vec<N>),
     Do(Vec<N>),
+    /// `HI LO do body loop` as one node (the range is part of the construct)
+    DoR(i64, i64, Vec<N>),
     Def(&'static str, Vec<N>),
     Local(&'static str),
     Var(&'static str),
@@ -30,7 +32,7 @@ pub fn size(n: &N) -> usize {
     match n {
         N::If(a, b) => 1 + sz(a) + b.as_ref().map(|b| 1 + sz(b)).unwrap_or(0),
         N::Case(arms, d) => 1 + arms.iter().map(|(p, b)| 1 + sz(p) + sz(b)).sum::<usize>() + sz(d),
-        N::Until(b) | N::Repeat(b) | N::Do(b) | N::Def(_, b) | N::Wrap(_, b, _) => 1 + sz(b),
+        N::Until(b) | N::Repeat(b) | N::Do(b) | N::DoR(_, _, b) | N::Def(_, b) | N::Wrap(_, b, _) => 1 + sz(b),
         N::While(c, b) => 1 + sz(c) + sz(b),
         _ => 1,
     }
@@ -93,6 +95,11 @@ pub fn show(v: &[N], out: &mut String) {
             }
             N::Do(b) => {
                 out.push_str("do ");
+                show(b, out);
+                out.push_str("loop ");
+            }
+            N::DoR(hi, lo, b) => {
+                out.push_str(&format!("{} {} do ", hi, lo));
                 show(b, out);
                 out.push_str("loop ");
             }
@@ -183,7 +190,7 @@ pub fn kinds(v: &[N], out: &mut std::collections::BTreeSet<&'static str>) {
                 }
                 kinds(b, out);
             }
-            N::Do(b) => {
+            N::Do(b) | N::DoR(_, _, b) => {
                 out.insert("do");
                 if b.is_empty() {
                     out.insert("empty-do-body");
@@ -292,6 +299,17 @@ pub struct Prog {
 pub fn resolve(v: &[N], env: &mut Env, defs: &mut Vec<Vec<R>>) -> Option<Vec<R>> {
     let mut out = vec![];
     for n in v {
+        if let N::DoR(hi, lo, b) = n {
+            out.push(R::Push(V::Int(*hi as i128)));
+            out.push(R::Push(V::Int(*lo as i128)));
+            env.flows += 1;
+            env.loops.push(LoopK::Do);
+            let b = resolve(b, env, defs);
+            env.loops.pop();
+            env.flows -= 1;
+            out.push(R::Do(b?));
+            continue;
+        }
         out.push(match n {
             N::Int(i) => R::Push(V::Int(*i as i128)),
             N::Flag(b) => R::Push(V::Flag(*b)),
@@ -393,6 +411,7 @@ pub fn resolve(v: &[N], env: &mut Env, defs: &mut Vec<Vec<R>>) -> Option<Vec<R>>
                 _ => return None,
             },
             N::Wrap(..) => return None,
+            N::DoR(..) => unreachable!(),
             N::Name(nm) => {
                 if let Some(i) = env.funs.last().and_then(|f| f.iter().rposition(|x| x == nm)) {
                     R::LoadLocal(i)
@@ -443,6 +462,9 @@ pub struct M<'a> {
     pub branches_skipped: usize,
     pub calls: usize,
     pub read_unset_local: bool,
+    /// reading a local whose declaration was not executed in this call: 0 = per-call slot rule (nil below
+    /// the highest slot initialised in this call, failure otherwise), 1 = always nil, 2 = always a failure
+    pub unset_mode: u8,
 }
 
 impl<'a> M<'a> {
@@ -461,6 +483,7 @@ impl<'a> M<'a> {
             branches_skipped: 0,
             calls: 0,
             read_unset_local: false,
+            unset_mode: 0,
         }
     }
     pub fn run(&mut self) -> Result<(), E> {
@@ -642,7 +665,15 @@ impl<'a> M<'a> {
                         Some(x) => self.ds.push(x),
                         None => {
                             self.read_unset_local = true;
-                            return Err(E::Unbound);
+                            let nil = match self.unset_mode {
+                                0 => *i < f.len(),
+                                1 => true,
+                                _ => false,
+                            };
+                            if !nil {
+                                return Err(E::Unbound);
+                            }
+                            self.ds.push(V::Nil)
                         }
                     }
                 }
@@ -747,6 +778,8 @@ pub struct Grammar {
     pub while_: bool,
     pub repeat: bool,
     pub do_: bool,
+    /// counted loops with their literal range built in: `HI LO do body loop` as one node
+    pub do_ranges: Vec<(i64, i64)>,
     pub defs: Vec<&'static str>,
     pub locals: Vec<&'static str>,
     pub vars: Vec<&'static str>,
@@ -909,6 +942,11 @@ pub fn gen_stmt(gr: &Grammar, k: usize, g: &G, only: Option<usize>, emit: StmtSi
     }
     if gr.do_ && want(5) {
         gen_seq(gr, rest, &inner(g, Some(LoopK::Do)), &mut tmp, &mut |b, gb| emit(N::Do(b.clone()), &after(g, gb)));
+    }
+    if want(5) {
+        for (hi, lo) in &gr.do_ranges {
+            gen_seq(gr, rest, &inner(g, Some(LoopK::Do)), &mut tmp, &mut |b, gb| emit(N::DoR(*hi, *lo, b.clone()), &after(g, gb)));
+        }
     }
     if gr.while_ && want(6) {
         for sc in 0..=rest {
